@@ -166,6 +166,12 @@ main (void)
 	VASSERT (mf [0].pos == w->dataoffset + nd_n * w->blockwidth, "header update restores the file position") ;
 #endif
 	VASSERT (mf [0].len == w->dataoffset + nd_n * w->blockwidth, "header update does not change the file length") ;
+#ifdef WRITE_ONLY
+	/* writer-side frame condition only (containers whose parser does not finish within budget): position restored, length kept */
+	VASSERT (w->write_current == 0 || w->write_current == nd_n, "header update leaves the write pointer alone") ;
+	WITNESS_END () ;
+	return 0 ;
+#endif
 #else
 #ifndef DBG_NO_CLOSE
 	if (w->codec_close) rc = w->codec_close (w) ;
